@@ -208,6 +208,60 @@ def check_builder(W, rec, rng):
                 return
 
 
+def check_histories(W, rec):
+    """Histories.  A dispatcher whose mount table is edited between requests chooses by the table as it is now.  A
+    request class with a mutable parameter storage: what one handler does to its request.args is not in the args of the
+    next request with the same query string."""
+    DispatcherMiddleware, EnvironBuilder, Request, MultiDict = W["DispatcherMiddleware"], W["EnvironBuilder"], W["Request"], W["MultiDict"]
+    seen = {}
+
+    def mk_app(name):
+        def app(env, sr):
+            seen["r"] = (name, env["SCRIPT_NAME"], env["PATH_INFO"])
+            return []
+
+        return app
+
+    d = DispatcherMiddleware(mk_app("default"), {"/api": mk_app("/api")})
+    steps = [("serve", "/api/v2/users", ("/api", "/api", "/v2/users")), ("serve", "/lazy/x", ("default", "", "/lazy/x")),
+             ("mount", "/api/v2", None), ("serve", "/api/v2/users", ("/api/v2", "/api/v2", "/users")), ("serve", "/api/v1", ("/api", "/api", "/v1")),
+             ("mount", "/lazy", None), ("serve", "/lazy/x", ("/lazy", "/lazy", "/x")),
+             ("unmount", "/api/v2", None), ("serve", "/api/v2/users", ("/api", "/api", "/v2/users")),
+             ("unmount", "/api", None), ("serve", "/api/v2/users", ("default", "", "/api/v2/users")), ("serve", "/api/v1", ("default", "", "/api/v1"))]
+    hist = []
+    for kind, arg, want in steps:
+        hist.append((kind, arg))
+        if kind == "mount":
+            d.mounts[arg] = mk_app(arg)
+        elif kind == "unmount":
+            del d.mounts[arg]
+        else:
+            rec.case()
+            rec.nontrivial(("dispatcher-history", tuple(hist)))
+            rec.observe("dispatcher_requests_after_table_edits")
+            d({"PATH_INFO": arg, "SCRIPT_NAME": ""}, None)
+            if seen["r"] != want:
+                rec.violation("C15/dispatcher-wrong-mount", f"after {hist!r}: {arg!r} went to {seen['r']!r}, the table now says {want!r}", {"family": "dispatcher-history", "history": [list(h) for h in hist]}, monitor="dispatcher-reference")
+                break
+    # ---- request.args with a mutable storage class
+
+    class R(Request):
+        parameter_storage_class = MultiDict
+
+    for qs in ("a=1&b=%C3%A9&a=2", "", "k"):
+        first = EnvironBuilder("/p", query_string=qs).get_request(R)
+        before = list(first.args.items(multi=True))
+        first.args.add("injected", "by-the-first-handler")
+        first.args.poplist("a")
+        second = EnvironBuilder("/p", query_string=qs).get_request(R)
+        rec.case()
+        rec.nontrivial(("args-shared", qs))
+        rec.observe("requests_with_the_same_query_string")
+        got = list(second.args.items(multi=True))
+        if got != before:
+            rec.violation("C15/query-args-not-recovered", f"query {qs!r}: a second request sees {got!r}, the query means {before!r} (the first request's handler edited its own args)", {"family": "args-shared", "query": qs}, monitor="identity")
+
+
 def check_dispatcher(W, rec, idx, of):
     DispatcherMiddleware = W["DispatcherMiddleware"]
     segs = ["a", "b", "c", "ab"]
@@ -312,6 +366,8 @@ def run(shard, rec, rng):
     for _ in range(cfg["triples"]):
         check_builder(W, rec, rng)
     check_dispatcher(W, rec, idx, of)
+    if idx % 4 == 0:
+        check_histories(W, rec)
     reach.finish()
 
 
